@@ -28,7 +28,7 @@ def isSimple : Node → Bool
 def parenOps (o : Op) : Bool :=
   o != .range && o != .not && o != .list && o != .in_ && o != .literal && o != .must && o != .mustNot
 
-def paren (s : Bytes) : Bytes := [40] ++ s ++ [41]
+def parenB (s : Bytes) : Bytes := [40] ++ s ++ [41]
 
 def replaceByte (x : UInt8) (y : Bytes) (s : Bytes) : Bytes := s.flatMap (fun c => if c == x then y else [c])
 
@@ -70,8 +70,8 @@ def render (fns : Fns) : Expr → Out Bytes
       | .err => .err
       | .panic => .panic
       | .ok right =>
-        let left := if parenOps o && !isSimple l then paren left else left
-        let right := if parenOps o && !isSimple r then paren right else right
+        let left := if parenOps o && !isSimple l then parenB left else left
+        let right := if parenOps o && !isSimple r then parenB right else right
         match fns o with
         | none => .err
         | some fn => fn left right
@@ -283,8 +283,8 @@ def renderParam (fns : Fns) : Expr → Out (Bytes × List Prim)
         | .panic => .panic
         | .ok rparams =>
           let params := lparams ++ rparams
-          let left := if parenOps o && !isSimple l then paren left else left
-          let right := if parenOps o && !isSimple r then paren right else right
+          let left := if parenOps o && !isSimple l then parenB left else left
+          let right := if parenOps o && !isSimple r then parenB right else right
           if o = .like then
             (match likeParam left right rparams with
              | .ok s => .ok (s, params) | .err => .err | .panic => .panic)
